@@ -1637,6 +1637,26 @@ def stage_ast(work, tier, seed):
                 extra.append(("g_lexer", "pub type Input = str;\n"))
             insts.append({"name": "a%d" % k, "shape": name, "grammar": text, "settings": st2, "inputs": inputs,
                           "nones": nones, "table": None, "extra_mods": extra, "combo": ci})
+    # corpus grammars with every terminal turned into a content terminal /<letter>\d*/ and
+    # sentences whose tokens are numbered (a1 b2 a3 ...): pairwise distinct content tokens
+    rng = random.Random(seed * 29 + 7)
+    cor = [c for c in corpus(tier, seed) if "meta" not in c[2]]
+    pick = rng.sample(cor, min(40 if tier == "quick" else 400, len(cor)))
+    for gid, g, tags in pick:
+        g2 = {"rules": g["rules"], "terms": [[t[0], "re", t[3] + "\\d*", t[3], None, None] for t in g["terms"]]}
+        text = G.render(g2)
+        r2 = random.Random("ast-%s-%d" % (gid, seed))
+        inputs = []
+        for toks, kind in gen_inputs(g, r2, 4, 0):
+            if kind != "sentence" or len(toks) > 9:
+                continue
+            lex = G.lexeme_of(g)
+            inputs.append(" ".join("%s%d" % (lex[t], i + 1) for i, t in enumerate(toks)))
+        for st in (dict(algo="lr"), dict(algo="glr")):
+            k += 1
+            insts.append({"name": "a%d" % k, "shape": "corpus:" + gid, "grammar": text,
+                          "settings": dict(st, builder="default"), "inputs": inputs, "nones": None,
+                          "table": None, "extra_mods": [], "combo": 0, "sentences_only": True})
     # tables are needed for the query/run module (names of enum variants): dump with the same settings
     cases = []
     for inst in insts:
@@ -1680,12 +1700,17 @@ def stage_ast(work, tier, seed):
         if inst["settings"]["builder"] != "default" or inst["table"] is None:
             continue
         for j, (inp, out) in enumerate(zip(inst["inputs"], r["runs"])):
-            want = _re.findall(r"\d+|[a-z]+", inp.split("//")[0] + " " + " ".join(x.split("\n", 1)[1] if "\n" in x else ""
-                                                                                 for x in inp.split("//")[1:]))
+            if inst["shape"].startswith("corpus:"):
+                want = inp.split()
+            else:
+                want = _re.findall(r"\d+|[a-z]+", inp.split("//")[0] + " " + " ".join(x.split("\n", 1)[1] if "\n" in x else ""
+                                                                                     for x in inp.split("//")[1:]))
             if inst["shape"] == "bool_assign":
                 want = [w for w in want if w.isdigit()]
             if inst["shape"] == "all_const":
                 want = []
+            if out == "crash":
+                continue  # the process died inside this parser (C15's concern, e.g. finding C15-F1)
             body = out
             ok = out.startswith("ok")
             if ok and inst["settings"]["algo"] == "glr":
@@ -1739,7 +1764,15 @@ def stage_mci_glr(work, tier, seed):
     r = run.run_tlc(work, "MCI_GLR", "MCI_GLR.cfg",
                     {"DUMPS": allp + ".dumps.ndjson", "MAXLEN": str(maxlen)},
                     workers=run.NCPU, timeout=3000)
-    return {"verdicts": r["verdicts"], "gtext": gtext, "states": r["distinct"], "transitions": r["states"],
+    # design level: the same exploration with the reducer's work list popped LIFO; the forest
+    # must not depend on the processing order (reported as a divergence, never a verdict:
+    # the code pops FIFO)
+    lifo = run.run_tlc(work, "MCI_GLR", "MCI_GLR_lifo.cfg",
+                       {"DUMPS": allp + ".dumps.ndjson", "MAXLEN": str(maxlen)}, workers=run.NCPU, timeout=3000)
+    return {"verdicts": r["verdicts"], "gtext": gtext, "states": r["distinct"] + lifo["distinct"],
+            "transitions": r["states"] + lifo["states"],
+            "divergences": ["forest depends on the reducer's pop order (LIFO): %s w=%s" % (v["id"], v["w"])
+                            for v in lifo["verdicts"]][:10],
             "ntables": n, "maxlen": maxlen,
             "samples": [dict(table=c["id"], grammar=c["grammar"]) for c in cases[:2]]}
 
